@@ -264,7 +264,7 @@ theorem allOK_of_sim : ∀ (evs : List Ev) (st : St) (sp : Spec) (now : Nat),
   | .op o :: evs, st, sp, now, h, hw => by
     obtain ⟨hw1, hw2⟩ := hw
     obtain ⟨h1, h2⟩ := sim_step h hw1 o
-    exact ⟨by simp [specOK, h1],
+    exact ⟨by simp [specOK, hw1, h1],
       allOK_of_sim evs _ _ now h2 (noWrapAll_congr evs now sp _ (specStep_ttl _ _ _ _) hw2)⟩
 
 /-- Model and monitor run in lockstep over a history (the monitor is fed the
